@@ -327,3 +327,5 @@ def run(ctx):
     import rules.C11 as c11
     ctx.borrow(c11.r1, {'C11.R1': 'C02.R14'},
                'the CRC byte ebusd transmits and the check of the slave response CRC are computed with this table')
+    import rules.C09 as c09
+    c09.symbol_layout_rule(ctx, 'C02.R15')
